@@ -38,11 +38,16 @@ def request_of(sc: Dict[str, Any]) -> Dict[str, Any]:
         extra["calls"] = calls
     if sc.get("kbirq") is not None:
         extra["kbirq"] = bool(sc["kbirq"])
+    if "s0" in sc and not calls:
+        # scenarios that start with S not yet loaded: CoreRuntime::step documents that it returns an error while it
+        # defers a delivery ("IRQ deferred: stack pointer not initialized"); the host keeps stepping and the error text
+        # is attached to the step record for the monitor
+        extra["step_errors"] = "record"
     return {
         **extra,
         "imem": [[o, d.hex()] for o, d in R.imem_init(sc)], "im_lo": R.IM_LO, "im_hi": R.IM_HI,
         "rom": [[a, d.hex()] for a, d in segs], "rom_base": R.ROM_BASE, "rom_size": R.ROM_SIZE,
-        "pc": R.MAIN, "s": R.STACK_TOP, "u": R.USTACK_TOP,
+        "pc": R.MAIN, "s": R.initial_s(sc), "u": R.USTACK_TOP,
         "ba": int(sc.get("ba0", 0x1234)), "i": int(sc.get("i0", 1)), "x": int(sc.get("x0", 0x0B8100)),
         "y": int(sc.get("y0", 0x0B8200)), "f": int(sc.get("f0", 0)) & 0xFF,
         "imr0": int(sc.get("imr0", 0)) & 0xFF, "isr0": int(sc.get("isr0", 0)) & 0xFF,
